@@ -79,7 +79,8 @@ class C13(PropBase):
             "after a push (state leaking between evaluations), PUBLIC records sharing an address, STACK CFI delta lines that re-define a register "
             "and then define its alias (x29/fp, x30/lr, r11/fp, r14/lr; 25 in-process runs), 2..4 threads in deep recursion (17 000..40 000 frames "
             "together, stacks synthesised by the harness from deep=) under per-module suspension scripts rotated per run; rendering 0 is the "
-            "synchronous one and threads[] must be in thread-list order; frames inside 2..6 overlapping unloaded modules. Q cases: the registers of an arm64 "
+            "synchronous one and threads[] must be in thread-list order; renderings 1..3 print ONE synchronously built state after an amd64 dump and after an x86 dump were processed and "
+            "printed on the same thread and on a freshly spawned OS thread (state surviving between building and printing); frames inside 2..6 overlapping unloaded modules. Q cases: the registers of an arm64 "
             "CFI caller frame against C13.Cfi.a64_walk; A cases: adaptive walks on one real Symbolizer polled in an explicit schedule against C13.Adaptive.arun; P cases: process_minidump on "
             "decision-tree dumps against the same model. "
             "R cases: the entries (name, soft, hard, unit) of the proc_limits array against the model; E: cert_subject per module (certificate names may repeat in the JSON object); "
@@ -161,7 +162,8 @@ class C13(PropBase):
                 "register-derived candidates in ascending register order whatever order the operands contributed them in (c13_bitflip_candidates_order_independent; through a hash container "
                 "refuted: c13_bitflip_candidates_hash_refuted); the seven pieces of code these models stand for (certificate fold, unloaded-module block, stream fallback, modules_at_address, "
                 "memory_range, the reader's size guard, the register loop of check_for_bitflips) are regenerated as text from the source and proved equal to the text the model was written "
-                "against (c13_pinned_code_modelled). "
+                "against (c13_pinned_code_modelled); the thread_local print context (pointer width of every printed address) is written by the printers as their first statement and by nobody "
+                "else, and read only by Display for Address (c13_print_context_set_by_printers: site enumeration, not a semantic proof; exercised by the build-then-print-later/elsewhere run shapes). "
                 "Compared with the real code on generated cases: U (unloaded-module map, JSON and text), B (source registers of possible_bit_flips), A (adaptive walks on one real Symbolizer under explicit poll schedules: results, answer logs, "
                 "supplier call order, stats, counters), P (the real processor on synthetic amd64 dumps whose threads ARE decision trees — CFI cell when the module's "
                 "symbols load, frame-pointer cell otherwise — against the adaptive model under round-robin polling: per-thread module sequence, supplier call "
